@@ -466,3 +466,92 @@ Definition ext_pex : ktable := Params.sm_ext_pex_keys.
 Definition ext_metadata : ktable := Params.sm_ext_metadata_keys.
 Definition dht : ktable := Params.sm_dht_keys.
 Definition real_tables : list ktable := [ext_handshake; ext_pex; ext_metadata; dht].
+
+(* ---------------------------------------------------------------- round-trip side condition
+   table_rt_ok: what the writer/reader round trip needs of a key table, as a boolean that is
+   checked by computation on the real tables:
+   * the index of every row is its position (true of every static_map_type: enum order = array order);
+   * for every row j and every position kb at which a dictionary level of its key starts (0, or right
+     after a "::"), walking the key from kb as the writer does succeeds: every component ends at a
+     well-formed terminator inside the key, and for EVERY cursor position c <= j the reader's lookup
+     of the key prefix up to that terminator (find_key_match from row c) finds a row with exactly that
+     terminator position — row j itself when the terminator is the leaf's (NUL or '*'), a row that has
+     "::" there when it is a dictionary's: no earlier
+     row matches first, no sibling blocks the search (the `break` of find_key_match);
+   * the leaf kind found from every level start is the same.
+   Rows whose key contains "[]" are accepted by the check but the round-trip theorem requires their
+   entries to be empty (list rows: see static_map_roundtrip_lists_partial). *)
+Inductive leafkind := LList | LLeaf (raw : option raw_kind).
+
+Definition level_start (k : bytes) (kb : N) : bool :=
+  (kb =? 0) || ((2 <=? kb) && (nth (N.to_nat (kb - 2)) k 0 =? ch_colon) && (nth (N.to_nat (kb - 1)) k 0 =? ch_colon)).
+
+Definition lookups_ok (tbl : ktable) (j : nat) (cs : bytes) (ke : N) (leaf : bool) : bool :=
+  forallb (fun c => match find_key (skipn c tbl) c cs with
+                    | FkSome p b =>
+                        (b =? ke) &&
+                        (if leaf then Nat.eqb p j
+                         else match nth_error tbl p with       (* the row found opens a dictionary too *)
+                              | Some (_, k') => nth (N.to_nat ke) k' 0 =? ch_colon
+                              | None => false
+                              end)
+                    | _ => false
+                    end) (seq 0 (S j)).
+
+Fixpoint walk (fuel : nat) (tbl : ktable) (j : nat) (k : bytes) (kb : N) : option leafkind :=
+  match fuel with
+  | O => None
+  | S f =>
+      let ke := find_key_end (N.to_nat max_key + 1) k kb in
+      if negb ((ke <? max_key) && (ke <=? N.of_nat (length k))) then None
+      else
+        let c0 := nth (N.to_nat ke) k 0 in
+        let c1 := nth (N.to_nat (ke + 1)) k 0 in
+        let cs := firstn (N.to_nat ke) k in
+        if (c0 =? ch_colon) && (c1 =? ch_colon) then
+          if lookups_ok tbl j cs ke false then walk f tbl j k (ke + 2) else None
+        else if (c0 =? ch_lbr) && (c1 =? ch_rbr) then Some LList
+        else if c0 =? 0 then
+          if lookups_ok tbl j cs ke true then Some (LLeaf None) else None
+        else if c0 =? ch_star then
+          if lookups_ok tbl j cs ke true then Some (LLeaf (Some (kind_of_char c1))) else None
+        else None
+  end.
+
+Definition raw_kind_eqb (a b : raw_kind) : bool :=
+  match a, b with RawAny, RawAny | RawS, RawS | RawL, RawL | RawM, RawM => true | _, _ => false end.
+
+Definition leafkind_eqb (a b : leafkind) : bool :=
+  match a, b with
+  | LList, LList => true
+  | LLeaf None, LLeaf None => true
+  | LLeaf (Some x), LLeaf (Some y) => raw_kind_eqb x y
+  | _, _ => false
+  end.
+
+Definition walk_fuel : nat := 9.
+Definition row_kind (tbl : ktable) (j : nat) (k : bytes) : option leafkind := walk walk_fuel tbl j k 0.
+
+Definition row_ok (tbl : ktable) (j : nat) (k : bytes) : bool :=
+  match row_kind tbl j k with
+  | None => false
+  | Some lk =>
+      forallb (fun kb => negb (level_start k kb) ||
+                         match walk walk_fuel tbl j k kb with Some lk' => leafkind_eqb lk' lk | None => false end)
+              (map N.of_nat (seq 0 16))
+  end.
+
+Fixpoint idx_pos_ok (tl : ktable) (p : N) : bool :=
+  match tl with
+  | [] => true
+  | (i, _) :: t => (i =? p) && idx_pos_ok t (p + 1)
+  end.
+
+Fixpoint rows_ok (tbl : ktable) (tl : ktable) (j : nat) : bool :=
+  match tl with
+  | [] => true
+  | (_, k) :: t => row_ok tbl j k && rows_ok tbl t (S j)
+  end.
+
+Definition table_rt_ok (tbl : ktable) : bool :=
+  table_ok tbl && idx_pos_ok tbl 0 && rows_ok tbl tbl 0.
